@@ -1,6 +1,6 @@
 """C13 - disabled means identity; debug settings change no verdict.
 
-Every combination of DLTYPE_DISABLE in {unset, 0, 1, true, false, TRUE, the lower-case variable name},
+Every combination of DLTYPE_DISABLE in {unset, 0, 1, true, false, TRUE, FALSE, Off, the lower-case variable name},
 DLTYPE_DEBUG_MODE in {unset, 0, 1} and logging level in {WARNING, DEBUG} runs in a fresh interpreter
 (harness.probe_env), which tries enabled in {default, True, False} for the three decorator kinds on a fixed
 corpus of accepting and rejecting calls.  The model (Config.v: read_env, effective_enabled, returns_original)
@@ -19,10 +19,10 @@ from harness import impl as I
 from harness.common import PY, VERIF, Model, Report, os, sx_bool, sx_str
 from harness.props.c01 import sig_case
 
-DISABLE = [None, "0", "1", "true", "false", "TRUE", ("lower", "1")]
+DISABLE = [None, "0", "1", "true", "false", "TRUE", "FALSE", "Off", ("lower", "1")]
 DEBUG = [None, "0", "1"]
 LEVELS = ["WARNING", "DEBUG"]
-EXTRA_DISABLE = ["yes", "off", "On", "n", "2", "maybe", ("lower", "no")]
+EXTRA_DISABLE = ["yes", "off", "On", "n", "2", "maybe", ("lower", "no"), "False", "No", "N", "F", "T", "Y", "YES", " 1", ""]
 
 
 PROVIDER_CONFIGS = [("self_on_function", {"kind": "self", "scope": {"n": 5}}, False), ("self_on_method", {"kind": "self", "scope": {"n": 5}}, True),
